@@ -20,7 +20,7 @@
      {ev:"Del", ts, lmax, o}    lmax = key ids that were the max key of a leaf before the call
      {ev:"Rw", vis:[[kid, vid, newvid]...], o}      IterateKV with a rewriting callback
      {ev:"Reset", o}            {ev:"Reopen", o}
-     {ev:"Panic", in, msg, sbo, reinit}             the call `in` panicked; the trace ends here
+     {ev:"Panic", t, in, msg, sbo, reinit}          the call `in` panicked; the trace ends here
    Known-finding signatures are decided HERE (the `why` text), from the recorded facts only.   *)
 EXTENDS Integers, FiniteSets, Sequences, TLC, Json
 
@@ -175,6 +175,10 @@ Step(e) ==
          /\ dead' = TRUE /\ pm' = [err |-> "off"]
          /\ nd' = {}
          /\ UNCHANGED <<tid, u, pers, m, st, reopened>>
+    [] e.ev = "Panic" /\ dead ->      \* the constructor itself panicked: there is no New event
+         /\ nb' = {[at |-> l, trace |-> e.t, why |-> e.in \o ": panic", prop |-> "C10"]}
+         /\ nd' = {}
+         /\ UNCHANGED <<tid, u, pers, m, st, reopened, dead, pm>>
 
 \* accumulation: the state stays small however many events are rejected (a known finding can be hit
 \* thousands of times): at most Cap records per (prop, why) are kept, the counts are exact
